@@ -1,0 +1,242 @@
+//go:build verif
+
+// Observation-only hooks for the /verif runtime monitors. Nothing in this file
+// changes behaviour; without the `verif` build tag it is not compiled.
+
+package vm
+
+import (
+	"sort"
+
+	"github.com/ethereum/go-ethereum/common"
+	"github.com/holiman/uint256"
+)
+
+// VerifKey is a deterministic dump of one StorageKey node.
+type VerifKey struct {
+	ID       int // identity of the *StorageKey (same pointer => same ID)
+	HasSlot  bool
+	Slot     [32]byte
+	Offset   uint8
+	TypeId   common.Hash
+	NodeType int
+	Data     []byte
+	// Changes is nil when the node has no change record at all.
+	Changes map[uint64][][]byte
+	// ByName: childrenIndex entries sorted by name; ByPos: children entries sorted by (slot, offset).
+	ByName []VerifChildRef
+	ByPos  []VerifChildRef
+}
+
+// VerifChildRef is one edge of a StorageKey node.
+type VerifChildRef struct {
+	Name   []byte   // childrenIndex key (ByName only)
+	Slot   [32]byte // children key (ByPos only)
+	Offset uint8    // children key (ByPos only)
+	ID     int
+}
+
+// VerifIndexEntry is one entry of the flat (account, slot, offset, type) index.
+type VerifIndexEntry struct {
+	Account common.Address
+	Slot    [32]byte
+	Offset  uint8
+	TypeId  common.Hash
+	ID      int
+}
+
+// VerifRawEntry is one raw state change.
+type VerifRawEntry struct {
+	Account common.Address
+	Slot    [32]byte
+	CallIdx uint64
+	Val     common.Hash
+}
+
+// VerifCall is a flat dump of one call-tree node as reachable through lookup.
+type VerifCall struct {
+	Key      uint64 // lookup key
+	Index    uint64
+	Parent   int64
+	Children []uint64
+}
+
+// VerifDump is the complete content of a Tracer.
+type VerifDump struct {
+	Roots   map[common.Address]int // account -> node ID
+	Nodes   []VerifKey             // by ID
+	Index   []VerifIndexEntry
+	Raw     []VerifRawEntry
+	Calls   []VerifCall // sorted by lookup key
+	Count   uint64
+	Current int64 // -1 when no call is open
+	Root    int64 // -1 when empty
+}
+
+func cmpBytes(a, b []byte) int {
+	for i := 0; i < len(a) && i < len(b); i++ {
+		if a[i] != b[i] {
+			if a[i] < b[i] {
+				return -1
+			}
+			return 1
+		}
+	}
+	return len(a) - len(b)
+}
+
+// VerifDump enumerates everything the tracer holds, in a deterministic order.
+func (t *Tracer) VerifDump() *VerifDump {
+	d := &VerifDump{Roots: map[common.Address]int{}, Current: -1, Root: -1}
+	ids := map[*StorageKey]int{}
+	var visit func(k *StorageKey) int
+	visit = func(k *StorageKey) int {
+		if id, ok := ids[k]; ok {
+			return id
+		}
+		id := len(d.Nodes)
+		ids[k] = id
+		d.Nodes = append(d.Nodes, VerifKey{})
+		n := VerifKey{ID: id, Offset: k.offset, TypeId: k.typeId, NodeType: int(k.nodeType), Data: append([]byte(nil), k.data...)}
+		if k.slot != nil {
+			n.HasSlot = true
+			n.Slot = k.slot.Bytes32()
+		}
+		if k.changes != nil {
+			n.Changes = map[uint64][][]byte{}
+			for ci, l := range k.changes.changes {
+				cp := make([][]byte, len(l))
+				for i := range l {
+					cp[i] = append([]byte{}, l[i]...)
+				}
+				n.Changes[ci] = cp
+			}
+		}
+		names := make([]string, 0, len(k.childrenIndex))
+		for name := range k.childrenIndex {
+			names = append(names, name)
+		}
+		sort.Strings(names)
+		for _, name := range names {
+			n.ByName = append(n.ByName, VerifChildRef{Name: []byte(name), ID: visit(k.childrenIndex[name])})
+		}
+		type pos struct {
+			slot uint256.Int
+			off  uint8
+		}
+		var ps []pos
+		for s, m := range k.children {
+			for o := range m {
+				ps = append(ps, pos{s, o})
+			}
+		}
+		sort.Slice(ps, func(i, j int) bool {
+			if c := ps[i].slot.Cmp(&ps[j].slot); c != 0 {
+				return c < 0
+			}
+			return ps[i].off < ps[j].off
+		})
+		for _, p := range ps {
+			n.ByPos = append(n.ByPos, VerifChildRef{Slot: p.slot.Bytes32(), Offset: p.off, ID: visit(k.children[p.slot][p.off])})
+		}
+		d.Nodes[id] = n
+		return id
+	}
+	accts := make([]common.Address, 0, len(t.states.roots))
+	for a := range t.states.roots {
+		accts = append(accts, a)
+	}
+	sort.Slice(accts, func(i, j int) bool { return cmpBytes(accts[i][:], accts[j][:]) < 0 })
+	for _, a := range accts {
+		d.Roots[a] = visit(t.states.roots[a])
+	}
+	for a, m1 := range t.states.index {
+		for s, m2 := range m1 {
+			for o, m3 := range m2 {
+				for ty, k := range m3 {
+					d.Index = append(d.Index, VerifIndexEntry{Account: a, Slot: s.Bytes32(), Offset: o, TypeId: ty})
+					_ = k
+				}
+			}
+		}
+	}
+	sort.Slice(d.Index, func(i, j int) bool {
+		x, y := d.Index[i], d.Index[j]
+		if c := cmpBytes(x.Account[:], y.Account[:]); c != 0 {
+			return c < 0
+		}
+		if c := cmpBytes(x.Slot[:], y.Slot[:]); c != 0 {
+			return c < 0
+		}
+		if x.Offset != y.Offset {
+			return x.Offset < y.Offset
+		}
+		return cmpBytes(x.TypeId[:], y.TypeId[:]) < 0
+	})
+	for i := range d.Index {
+		e := &d.Index[i]
+		var s uint256.Int
+		s.SetBytes32(e.Slot[:])
+		e.ID = visit(t.states.index[e.Account][s][e.Offset][e.TypeId])
+	}
+	for a, m1 := range t.states.raw {
+		for s, m2 := range m1 {
+			for ci, v := range m2 {
+				d.Raw = append(d.Raw, VerifRawEntry{Account: a, Slot: s.Bytes32(), CallIdx: ci, Val: v})
+			}
+		}
+	}
+	sort.Slice(d.Raw, func(i, j int) bool {
+		x, y := d.Raw[i], d.Raw[j]
+		if c := cmpBytes(x.Account[:], y.Account[:]); c != 0 {
+			return c < 0
+		}
+		if c := cmpBytes(x.Slot[:], y.Slot[:]); c != 0 {
+			return c < 0
+		}
+		return x.CallIdx < y.CallIdx
+	})
+	ct := t.callTree
+	for key, c := range ct.lookup {
+		vc := VerifCall{Key: key, Parent: -1}
+		if c != nil {
+			vc.Index = c.Index
+			if c.Parent != nil {
+				vc.Parent = int64(c.Parent.Index)
+			}
+			for _, ch := range c.Children {
+				vc.Children = append(vc.Children, ch.Index)
+			}
+		}
+		d.Calls = append(d.Calls, vc)
+	}
+	sort.Slice(d.Calls, func(i, j int) bool { return d.Calls[i].Key < d.Calls[j].Key })
+	d.Count = ct.count
+	if ct.current != nil {
+		d.Current = int64(ct.current.Index)
+	}
+	if ct.root != nil {
+		d.Root = int64(ct.root.Index)
+	}
+	return d
+}
+
+// VerifDepth returns the interpreter's current call depth.
+func (evm *EVM) VerifDepth() int { return evm.depth }
+
+// VerifReadOnly returns the interpreter's static-context flag.
+func (evm *EVM) VerifReadOnly() bool { return evm.interpreter.readOnly }
+
+// VerifConstants returns the current values of the shared package-level
+// 256-bit constants (a canary against in-place mutation).
+func VerifConstants() map[string][4]uint64 {
+	return map[string][4]uint64{
+		"zero":        *zero,
+		"one":         *one,
+		"two":         *two,
+		"oneSlot":     *oneSlot,
+		"storageMask": *storageMask,
+		"eight":       *eight,
+		"big0":        {uint64(big0.BitLen()), 0, 0, 0},
+	}
+}
